@@ -310,10 +310,10 @@ type cmdRes struct {
 	ch chan string
 }
 
-func (r *cmdRes) Abort(distsys.ArchetypeInterface) chan struct{}   { return nil }
-func (r *cmdRes) PreCommit(distsys.ArchetypeInterface) chan error  { return nil }
-func (r *cmdRes) Commit(distsys.ArchetypeInterface) chan struct{}  { return nil }
-func (r *cmdRes) Close() error                                      { return nil }
+func (r *cmdRes) Abort(distsys.ArchetypeInterface) chan struct{}  { return nil }
+func (r *cmdRes) PreCommit(distsys.ArchetypeInterface) chan error { return nil }
+func (r *cmdRes) Commit(distsys.ArchetypeInterface) chan struct{} { return nil }
+func (r *cmdRes) Close() error                                    { return nil }
 func (r *cmdRes) WriteValue(distsys.ArchetypeInterface, tla.Value) error {
 	return errors.New("c19: cmd is read-only")
 }
@@ -386,16 +386,16 @@ func newArch(kind string, a int) *arch {
 // ------------------------------------------------------------------ one case
 
 type caseRun struct {
-	cs      caseSpec
-	lines   []rec
-	mon     *resources.Monitor
-	monAddr string
-	monDone chan error
-	lsnUp   bool
-	archs   map[int]*arch
-	dets    map[int]*det
-	hmu     sync.Mutex
-	hnotes  []string
+	cs       caseSpec
+	lines    []rec
+	mon      *resources.Monitor
+	monAddr  string
+	monDone  chan error
+	lsnUp    bool
+	archs    map[int]*arch
+	dets     map[int]*det
+	hmu      sync.Mutex
+	hnotes   []string
 	addrUsed bool // direct mode: a detector was given the monitor's address
 }
 
